@@ -107,7 +107,7 @@ def run(ctx: Ctx) -> Result:
         v = verdicts[tr["cid"]]
         if v["v"][0] == "ok":
             n_ok += 1
-        else:
+        elif v["v"][0] == "FAIL":
             add_violation(ctx, res, v["v"][1], {"kind": "history", "property": ctx.prop, "spec": spec, "trace": tr, "verdict": v},
                           f"history {tr['cid']}: {v['v'][2][:300]}")
     # (a) every result against the semantics of its own arguments
